@@ -39,6 +39,27 @@ TARGETS = {
     'src/tree_store/page_store/header.rs': None,
 }
 
+TARGETS2 = {
+    'src/multimap_table.rs': ['insert', 'remove', 'remove_all', 'drop', 'new', 'get', 'len', 'finalize_multimap', 'close'],
+    'src/table.rs': ['insert', 'insert_reserve', 'remove', 'retain_in_bounds', 'extract_in_bounds', 'pop_first', 'pop_last', 'get_mut', 'drop'],
+    'src/tree_store/multimap_btree.rs': None,
+    'src/tree_store/page_store/savepoint.rs': None,
+    'src/tree_store/page_store/region.rs': None,
+    'src/tree_store/page_store/buddy_allocator.rs': None,
+    'src/tree_store/page_store/base.rs': None,
+    'src/tree_store/extract_if.rs': None,
+    'src/tree_store/btree.rs': None,
+    'src/tree_store/page_store/page_manager.rs': ['get_page', 'get_page_extended', 'record_unpersisted_allocations', 'unpersisted', 'free_if_unpersisted', 'process_unpersisted_data_freed',
+                                                  'begin_repair', 'end_repair', 'load_allocator_state', 'reserve_allocator_state', 'is_valid_allocator_state', 'clear_recovery_required',
+                                                  'repair_primary_corrupted', 'take_allocated_since_commit', 'rollback_all', 'uncommitted', 'conditional_free', 'free_if_uncommitted',
+                                                  'allocate_lowest', 'allocate_helper_retry', 'resize_to', 'get_last_durable_transaction_id', 'storage_failure', 'check_io_errors'],
+    'src/db.rs': ['begin_read', 'allocate_read_transaction', 'rebuild_allocator_state', 'primary_verifies', 'drain_pending_free_pages', 'open', 'create', 'create_with_backend', 'create_file',
+                  'begin_write_with_allocation_policy', 'start_write_transaction', 'end_write_transaction', 'close', 'new_read_only', 'cache_stats'],
+    'src/tree_store/btree_mutator.rs': ['insert', 'delete', 'finish_deletion', 'delete_leaf_helper', 'delete_branch_helper', 'replace_branch_child', 'conditional_free', 'finalize_branch_builder',
+                                        'delete_leaf_at_position', 'delete_leaf_indexes'],
+    'src/tree_store/btree_base.rs': ['drop', 'close'],
+}
+
 STMT_START = re.compile(r'^\s+(?!let\b|//|#|use\b|return\b|fn\b|pub\b|impl\b|else\b|\}|\{|match\b|if\b|for\b|while\b|loop\b|break\b|continue\b|debug_assert|assert|debug!|info!|warn!|trace!|error!|unsafe\b|Ok\(|Err\()[A-Za-z_\*\(]')
 
 
@@ -169,7 +190,7 @@ def main():
         jobs_n = int(a[a.index('--jobs') + 1])
     if '--op' in a:
         OP = a[a.index('--op') + 1]
-    targets = TARGETS
+    targets = TARGETS2 if '--targets2' in a else TARGETS
     if OP == 'swallow' or '--all-files' in a:
         targets = {}
         for dp, _dn, fns_ in os.walk('/repo/src'):
